@@ -204,6 +204,8 @@ void Reference::apply_repetition(Array<Reference*>& result) {
     Array<Vec2> offsets = {};
     repetition.get_offsets(offsets);
     repetition.clear();
+    // A lattice with zero columns or rows has no offsets at all
+    if (offsets.count == 0) return;
 
     // Skip first offset (0, 0)
     double* offset_p = (double*)(offsets.items + 1);
